@@ -476,12 +476,10 @@ class SuitKeyValue(SuitObject):
 
                         # TODO: refactoring required: workaround for multiple integrated payloads
                         if item in value and (item is suit_integrated_payloads or item is suit_integrated_dependencies):
-                            value[item].SuitIntegratedPayloadMap = {
-                                **value[item].SuitIntegratedPayloadMap,
-                                **cls._metadata.map[item]
-                                .from_cbor(cls.serialize_cbor({k: v}))
-                                .SuitIntegratedPayloadMap,
-                            }
+                            # update in place: rebuilding the map for every payload made parsing quadratic in their number
+                            value[item].SuitIntegratedPayloadMap.update(
+                                cls._metadata.map[item].from_cbor(cls.serialize_cbor({k: v})).SuitIntegratedPayloadMap
+                            )
                         else:
                             value[item] = cls._metadata.map[item].from_cbor(cls.serialize_cbor({k: v}))
                     except ValueError:
